@@ -93,6 +93,8 @@ def modutf7_decode(data: bytes) -> str:
                     buf = buf[i + 1:]
                     is_usascii = True
                     break
+            else:
+                break
     if not is_usascii:
         to_decode = buf.tobytes()
         decoded = _modified_b64decode(to_decode)
